@@ -29,10 +29,10 @@ P = {
    text="For every size in the box (q 41x34, t 131x66) plus real and large sizes, the new page's bytes, the exact byte/bit of every pixel, and from_bytes acceptance for every length around the expected one (Vec and slice) are compared with an independent layout formula.",
    note="Trusted: refs.rs layout arithmetic."),
  "C08": dict(cat="exploration", sec="4/C08", tech="runtime monitoring: postcondition monitor on the real controller driving real virtual signs from explored prior states",
-   text="Prior states are the states reached by the C13 breadth-first explorer (all 13 protocol states, half-finished transfers, other types) and by abandoning real controller calls at every message index; from each the real Sign configures and sends page lists to the real VirtualSign, and the monitor checks the postconditions of the statement on the sign's accessors.",
+   text="Prior states are the states reached by the C13 breadth-first explorer (all 13 protocol states, half-finished transfers, other types) and by abandoning real controller calls at every message index; from each the real Sign configures and sends page lists to the real VirtualSign, and the monitor checks the postconditions of the statement on the sign's accessors. Page lists just below and just above 65536 chunks (where the 16-bit chunk count wraps) are sent for every sign type.",
    note="Trusted: VirtualSign accessors; forged blocks (genuine id, other dims) are outside the contract clause."),
  "C09": dict(cat="exploration", sec="4/C09", tech="runtime monitoring: online trace automaton over the recorded bus log",
-   text="A recording bus logs every message the real controller emits for many types/addresses/page lists/retry patterns; a trace checker verifies request-ack-before-data, per-item offsets 0,16,32.., chunk sizes, concatenation == item bytes, count == chunks since the request, query right after count, the config block == the type's block, and nothing of a transfer after a request that was NOT acknowledged (on attempts 1, 2 and 3). The same predicates are applied to calls made with a Sign object that has already performed another call (succeeded or given up; often the same pages again).",
+   text="A recording bus logs every message the real controller emits for many types/addresses/page lists/retry patterns; a trace checker verifies request-ack-before-data, per-item offsets 0,16,32.., chunk sizes, concatenation == item bytes, count == chunks since the request, query right after count, the config block == the type's block, and nothing of a transfer after a request that was NOT acknowledged (on attempts 1, 2 and 3). Transfers just below and above 65536 chunks are included. The same predicates are applied to calls made with a Sign object that has already performed another call (succeeded or given up; often the same pages again).",
    note="Trusted: the trace automaton; the harness's transcription of the 11 blocks."),
  "C10": dict(cat="fault_enumeration", sec="4/C10", tech="runtime monitoring: lockstep reference protocol machine inside an adversarial scripted bus, exhaustive reply-script DFS",
    text="Every reply script over a 44-symbol alphabet is enumerated depth-first to the natural end of each controller operation (polling bounded); at every step the message the real controller emits and its final outcome are compared with an independent flat-state-machine model of the documented protocol. The same enumeration is repeated on Sign objects that have already performed one of 20 canned earlier calls (successful, given up after three failures, abandoned on a bus error, flip-style query unanswered, ...), each later call against a fresh reference machine, so that nothing a call leaves behind in the object can stand in for a reply.",
